@@ -117,7 +117,7 @@ Print Assumptions C01_row_roundtrip.
 (* get on the compiled store returns the rows declared for that key, in file order *)
 Theorem C01_get_compiled : forall recs k,
   get (store_v1 recs) k = map row_of (filter (fun r => bytes_eqb (key_v1 r) k) recs).
-Proof. intros. unfold store_v1. rewrite get_store_of. exact (rows_for_v1 recs k). Qed.
+Proof. exact get_compiled. Qed.
 Print Assumptions C01_get_compiled.
 
 (* properties of the spec itself *)
